@@ -8,6 +8,7 @@ mod report;
 mod rng;
 mod sandbox;
 mod scen;
+mod selftest;
 
 use engine::{Ctx, Tier};
 use std::path::PathBuf;
@@ -64,6 +65,12 @@ fn main() {
     let code = if let Some(p) = replay {
         report::replay(&ctx, &p)
     } else {
+        if what == "selftest-determinism" {
+            let n: usize = std::env::var("SELFTEST_CASES").ok().and_then(|v| v.parse().ok()).unwrap_or(600);
+            let code = selftest::run(&ctx, n);
+            let _ = std::fs::remove_dir_all(&base_dir);
+            std::process::exit(code);
+        }
         if what == "run-item" {
             // debugging aid: run the compile(+extras) -> decompile -> recompile pipeline of matching corpus items once
             let pat = std::env::var("ITEM").unwrap_or_default();
